@@ -25,3 +25,7 @@ mod macros_tests;
 
 #[cfg(doctest)]
 mod macros_doctests;
+
+// Verification hook (inert unless built by `cargo kani`, which sets --cfg kani).
+#[cfg(kani)]
+mod verif_kani;
